@@ -348,8 +348,16 @@ func (g *gen) genChan(typs []types.Type) error {
 	p.P("go func() {")
 	p.In()
 	p.P("wait := %s.WaitGroup{}", g.syncPkg())
+	p.P("listening := make(map[<-chan %s]bool)", typStr)
 	p.P("for c := range in {")
 	p.In()
+	// two listeners on one channel could hand its items over in the wrong order
+	p.P("if listening[c] {")
+	p.In()
+	p.P("continue")
+	p.Out()
+	p.P("}")
+	p.P("listening[c] = true")
 	p.P("wait.Add(1)")
 	p.P("res := c")
 	p.P("go func() {")
@@ -454,8 +462,16 @@ func (g *gen) genSliceOfChan(typs []types.Type) error {
 	p.P("go func() {")
 	p.In()
 	p.P("wait := %s.WaitGroup{}", g.syncPkg())
+	p.P("listening := make(map[%schan %s]bool, len(in))", dirStr, typStr)
 	p.P("for _, c := range in {")
 	p.In()
+	// two listeners on one channel could hand its items over in the wrong order
+	p.P("if listening[c] {")
+	p.In()
+	p.P("continue")
+	p.Out()
+	p.P("}")
+	p.P("listening[c] = true")
 	p.P("wait.Add(1)")
 	p.P("res := c")
 	p.P("go func() {")
